@@ -1,0 +1,7 @@
+//go:build !verif
+
+package sse
+
+// verifYield marks a named point of Joe's protocol. Without the verif build
+// tag it does nothing and is inlined away.
+func verifYield(string, any, any) {}
